@@ -226,38 +226,6 @@ theorem armBackoff_flow (s : Sys) (t i) (h : t < s.threads.length) :
 
 /-! ### the gate invariant -/
 
-/-- the wake condition of a wait on instance `d` for condition `c` -/
-def Latch (s : Sys) (c : Cond) (d : IId) : Prop :=
-  match c with
-  | .completed => (s.inst d).done = true
-  | .completedOk => (s.inst d).done = true
-  | .healthy => (s.inst d).readyDone = true
-  | .logReady => (s.inst d).logReady ≠ .none
-  | .started => (s.inst d).started = true ∨ (s.inst d).runCancelled = true
-
-/-- a latch can only be set on an instance that exists -/
-theorem latch_lt {s : Sys} {c : Cond} {d : IId} (h : Latch s c d) : d < s.insts.length := by
-  apply Classical.byContradiction
-  intro hn
-  have hd := inst_default s d (Nat.le_of_not_lt hn)
-  unfold Latch at h
-  cases c <;> simp [hd] at h
-
-/-- latches are never unset (they are `Inst.Le`-monotone) -/
-theorem latch_mono {t : Tid} {s s' : Sys} (hle : SysLe t s s') {c : Cond} {d : IId} (h : Latch s c d) : Latch s' c d := by
-  have hd := latch_lt h
-  have l := hle.old d hd
-  unfold Latch at h ⊢
-  cases c with
-  | completed => exact l.done h
-  | completedOk => exact l.done h
-  | healthy => exact l.readyDone h
-  | logReady => simp only at h ⊢; rw [l.logReady h]; exact h
-  | started =>
-    rcases h with h | h
-    · exact Or.inl (l.started h)
-    · exact Or.inr (l.runCancelled h)
-
 /-- a dependency `(k, c)` of instance `i` is covered: nothing was registered under `k` when `i`
     looked it up, or `i` passed its wait for `c` on the instance `d` it had found under `k` -/
 def Covered (s : Sys) (i : IId) (dep : Name × Cond) : Prop :=
@@ -308,7 +276,7 @@ theorem req_other (s : Sys) (deps i pc) (h : pc.isOther = true) : Req s deps i p
 
 structure GateInv (s : Sys) : Prop where
   /-- every wait that was passed was passed on a set latch, and the latch is still set -/
-  passed : ∀ i d c, GateEv.passed i d c ∈ s.gate → Latch s c d
+  passed : ∀ i d c, GateEv.passed i d c ∈ s.gate → latchB s c d = true
   /-- process threads belong to existing instances and meet the demand of their label -/
   thr : ∀ t, t < s.threads.length → ∀ i, (s.thr t).kind = .proc i →
     i < s.insts.length ∧ Req s (s.icfg i).deps i (s.thr t).pc
@@ -374,5 +342,451 @@ theorem pickDep_some {h : Hints} {rest rest' : List (Name × Cond)} {d : Name ×
       rcases List.mem_cons.mp hx with e | e
       · exact Or.inl e
       · exact Or.inr e
+
+/-! ### the dependency phase, arm by arm -/
+
+@[simp] theorem setPc_gate (s : Sys) (t pc) : (s.setPc t pc).gate = s.gate := rfl
+@[simp] theorem emit_gate (s : Sys) (o) : (s.emit o).gate = s.gate := rfl
+@[simp] theorem note_gate (s : Sys) (e) : (s.note e).gate = e :: s.gate := rfl
+@[simp] theorem setPc_icfg (s : Sys) (t pc i) : (s.setPc t pc).icfg i = s.icfg i := rfl
+@[simp] theorem emit_icfg (s : Sys) (o i) : (s.emit o).icfg i = s.icfg i := rfl
+
+/-- the wake condition of the wait labels (what `enabledThr` tests before the arm runs) -/
+def WaitOK (s : Sys) : Pc → Prop
+  | .waitDone d _ _ => (s.inst d).done = true
+  | .waitReady d _ => (s.inst d).readyDone = true
+  | .waitLogReady d _ => (s.inst d).logReady ≠ .none
+  | .waitStarted d _ => (s.inst d).started = true ∨ (s.inst d).runCancelled = true
+  | _ => True
+
+theorem waitOK_of_enabled (s : Sys) (t : Tid) (h : enabledThr s t = true) : WaitOK s (s.thr t).pc := by
+  unfold enabledThr at h
+  unfold WaitOK
+  cases hpc : (s.thr t).pc <;> simp_all
+
+theorem waitOK_of_not_parked (s : Sys) (t : Tid) (h : mustPark s t = false) : WaitOK s (s.thr t).pc := by
+  unfold mustPark at h
+  unfold WaitOK
+  cases hpc : (s.thr t).pc <;> simp_all [Pc.isYield]
+
+theorem notePassed_gate_of (s : Sys) (i d : IId) (c : Cond) (h : latchB s c d = true) :
+    (s.notePassed i d c).gate = .passed i d c :: s.gate := by
+  unfold Sys.notePassed; simp [h]
+
+/-- the step of the lookup: the looked-up dependency becomes the current one, or is recorded as not found -/
+theorem lookupRunning_req (s : Sys) (t i k c rest) (deps : List (Name × Cond)) (ht : t < s.threads.length)
+    (h : ∀ dep ∈ deps, dep = (k, c) ∨ dep ∈ rest ∨ Covered s i dep) :
+    let s' := lookupRunning s t i k c rest
+    Req s' deps i (s'.thr t).pc := by
+  intro s'
+  show Req (lookupRunning s t i k c rest) deps i ((lookupRunning s t i k c rest).thr t).pc
+  unfold lookupRunning
+  split
+  · rename_i d _
+    rw [pc_setPc _ _ _ (by simpa using ht)]
+    refine ⟨(fun hl => by simp [Pc.isLaunch] at hl), fun _ dep hd => ?_⟩
+    rcases h dep hd with e | e | e
+    · subst e
+      exact Or.inr (Or.inr ⟨d, rfl, by simp⟩)
+    · exact Or.inl e
+    · refine Or.inr (Or.inl ?_)
+      rcases e with e | ⟨d', e1, e2⟩
+      · exact Or.inl (by simp [e])
+      · exact Or.inr ⟨d', by simp [e1], by simp [e2]⟩
+  · rw [pc_setPc _ _ _ (by simpa using ht)]
+    refine ⟨(fun hl => by simp [Pc.isLaunch] at hl), fun _ dep hd => ?_⟩
+    rcases h dep hd with e | e | e
+    · subst e
+      exact Or.inr (Or.inl (Or.inl (by simp)))
+    · exact Or.inl e
+    · refine Or.inr (Or.inl ?_)
+      rcases e with e | ⟨d', e1, e2⟩
+      · exact Or.inl (by simp [e])
+      · exact Or.inr ⟨d', by simp [e1], by simp [e2]⟩
+
+theorem covered_of_gate_sub {s s' : Sys} (h : ∀ e ∈ s.gate, e ∈ s'.gate) {i dep} (hc : Covered s i dep) : Covered s' i dep := by
+  rcases hc with e | ⟨d, e1, e2⟩
+  · exact Or.inl (h _ e)
+  · exact Or.inr ⟨d, h _ e1, h _ e2⟩
+
+theorem depStep_req (s : Sys) (t i h rest) (deps : List (Name × Cond)) (ht : t < s.threads.length)
+    (hr : ∀ dep ∈ deps, dep ∈ rest ∨ Covered s i dep) :
+    Req (depStep s t i h rest) deps i ((depStep s t i h rest).thr t).pc := by
+  unfold depStep
+  split
+  · -- nothing left: into run()
+    rename_i hp
+    have hnil := pickDep_none hp
+    unfold afterDeps
+    rw [pc_setPc _ _ _ ht]
+    refine ⟨fun _ dep hd => ?_, fun hp => by simp [Pc.isDep] at hp⟩
+    rcases hr dep hd with e | e
+    · rw [hnil] at e; cases e
+    · exact e
+  · rename_i k c rest' hp
+    have hsplit := pickDep_some hp
+    simp only
+    split
+    · -- already done: found in the done registry
+      rename_i d _
+      rw [pc_setPc _ _ _ (by simpa using ht)]
+      refine ⟨(fun hl => by simp [Pc.isLaunch] at hl), fun _ dep hd => ?_⟩
+      rcases hr dep hd with e | e
+      · rcases hsplit dep e with e2 | e2
+        · subst e2; exact Or.inr (Or.inr ⟨d, rfl, by simp⟩)
+        · exact Or.inl e2
+      · exact Or.inr (Or.inl (covered_of_gate_sub (by intro x hx; simp [hx]) e))
+    · split
+      · refine lookupRunning_req _ t i k c rest' deps (by simpa using ht) ?_
+        intro dep hd
+        rcases hr dep hd with e | e
+        · rcases hsplit dep e with e2 | e2
+          · exact Or.inl e2
+          · exact Or.inr (Or.inl e2)
+        · exact Or.inr (Or.inr (covered_of_gate_sub (by intro x hx; simpa using hx) e))
+      · rw [pc_setPc _ _ _ (by simpa using ht)]
+        refine ⟨(fun hl => by simp [Pc.isLaunch] at hl), fun _ dep hd => ?_⟩
+        rcases hr dep hd with e | e
+        · rcases hsplit dep e with e2 | e2
+          · subst e2; exact Or.inl (by simp [restOf])
+          · exact Or.inl (by simp [restOf, e2])
+        · exact Or.inr (Or.inl (covered_of_gate_sub (by intro x hx; simpa using hx) e))
+
+theorem armDepLookup_req (s : Sys) (t i d c rest) (deps : List (Name × Cond)) (ht : t < s.threads.length)
+    (hr : Req s deps i (.depLookup d c rest)) :
+    Req (armDepLookup s t d c rest) deps i ((armDepLookup s t d c rest).thr t).pc := by
+  have h2 := hr.2 rfl
+  unfold armDepLookup
+  cases c <;> simp only <;> rw [pc_setPc _ _ _ ht] <;>
+    exact ⟨(fun hl => by simp [Pc.isLaunch] at hl), fun _ dep hd => by
+      rcases h2 dep hd with e | e | ⟨d', e1, e2⟩
+      · exact Or.inl (by simpa [restOf] using e)
+      · exact Or.inr (Or.inl e)
+      · simp only [curOf, Option.some.injEq, Prod.mk.injEq] at e1
+        exact Or.inr (Or.inr ⟨d', by simp [curOf, e1.1, ← e1.2], e2⟩)⟩
+
+/-- a wait that is passed: the current dependency becomes covered -/
+theorem pass_req (s : Sys) (t i d : IId) (c : Cond) (pc : Pc) (rest) (deps : List (Name × Cond))
+    (ht : t < s.threads.length) (hl : latchB s c d = true)
+    (hdep : pc.isDep = true) (hcur : curOf pc = some (d, c)) (hrest : restOf pc = rest)
+    (hr : Req s deps i pc) :
+    Req ((s.notePassed i d c).setPc t (.depNext rest)) deps i ((((s.notePassed i d c).setPc t (.depNext rest))).thr t).pc := by
+  rw [pc_setPc _ _ _ (by simpa using ht)]
+  have hg := notePassed_gate_of s i d c hl
+  refine ⟨(fun h => by simp [Pc.isLaunch] at h), fun _ dep hd => ?_⟩
+  rcases hr.2 hdep dep hd with e | e | ⟨d', e1, e2⟩
+  · exact Or.inl (by rw [hrest] at e; simpa [restOf] using e)
+  · refine Or.inr (Or.inl (covered_of_gate_sub ?_ e))
+    intro x hx; simp [hg, hx]
+  · rw [hcur] at e1
+    simp only [Option.some.injEq, Prod.mk.injEq] at e1
+    refine Or.inr (Or.inl (Or.inr ⟨d, ?_, ?_⟩))
+    · simp only [setPc_gate, hg]; rw [e1.1]; exact List.mem_cons_of_mem _ e2
+    · simp only [setPc_gate, hg]; rw [← e1.2]; exact List.mem_cons_self ..
+
+theorem doSkip_other (s : Sys) (t i) (ht : t < s.threads.length) : ((doSkip s t i).thr t).pc.isOther = true := by
+  unfold doSkip; rw [pc_setPc _ _ _ (by simpa using ht)]; rfl
+
+/-! ### one step of a process thread keeps the demand of its label -/
+
+theorem stepProc_req (s : Sys) (t : Tid) (i : IId) (h : Hints) (deps : List (Name × Cond))
+    (ht : t < s.threads.length) (hdeps : deps = (s.icfg i).deps)
+    (hr : Req s deps i (s.thr t).pc) (hw : WaitOK s (s.thr t).pc)
+    (hle : SysLe t s (stepProc s t i h (s.thr t).pc)) :
+    Req (stepProc s t i h (s.thr t).pc) deps i ((stepProc s t i h (s.thr t).pc).thr t).pc := by
+  -- a label outside both phases demands nothing
+  have other : ∀ s' : Sys, (s'.thr t).pc.isOther = true → Req s' deps i (s'.thr t).pc :=
+    fun s' ho => req_other s' deps i _ ho
+  -- a launch-phase arm: the demand is "all covered", which only grows
+  have launch : (s.thr t).pc.isLaunch = true → ∀ s' : Sys, SysLe t s s' → (s'.thr t).pc.launchOrOther = true →
+      Req s' deps i (s'.thr t).pc := by
+    intro hl s' hle' hf
+    have hcov := hr.1 hl
+    unfold Pc.launchOrOther at hf
+    rcases Bool.or_eq_true_iff.mp hf with hf | hf
+    · refine ⟨fun _ dep hd => covered_mono hle' (hcov dep hd), fun hp => ?_⟩
+      cases hpc' : (s'.thr t).pc <;> simp_all [Pc.isLaunch, Pc.isDep]
+    · exact other s' hf
+  cases hpc : (s.thr t).pc with
+  | begin =>
+    simp only [stepProc]
+    rw [pc_setPc _ _ _ ht]
+    exact ⟨(fun hl => by simp [Pc.isLaunch] at hl), fun _ dep hd => Or.inl (by simpa [restOf, hdeps] using hd)⟩
+  | depNext rest =>
+    simp only [stepProc]
+    rw [hpc] at hr
+    refine depStep_req s t i h rest deps ht ?_
+    intro dep hd
+    rcases hr.2 rfl dep hd with e | e | ⟨d, e1, _⟩
+    · exact Or.inl (by simpa [restOf] using e)
+    · exact Or.inr e
+    · simp [curOf] at e1
+  | lockDep k c rest =>
+    simp only [stepProc]
+    rw [hpc] at hr
+    refine lookupRunning_req s t i k c rest deps ht ?_
+    intro dep hd
+    rcases hr.2 rfl dep hd with e | e | ⟨d, e1, _⟩
+    · simp only [restOf, List.mem_cons] at e
+      rcases e with e | e
+      · exact Or.inl e
+      · exact Or.inr (Or.inl e)
+    · exact Or.inr (Or.inr e)
+    · simp [curOf] at e1
+  | depLookup d c rest =>
+    simp only [stepProc]
+    rw [hpc] at hr
+    exact armDepLookup_req s t i d c rest deps ht hr
+  | waitDone d ok rest =>
+    simp only [stepProc]
+    rw [hpc] at hr hw
+    unfold armWaitDone
+    split
+    · exact other _ (doSkip_other s t i ht)
+    · refine pass_req s t i d _ (.waitDone d ok rest) rest deps ht ?_ rfl rfl rfl hr
+      simp only [WaitOK] at hw
+      cases ok <;> simp [latchB, hw]
+  | waitReady d rest =>
+    simp only [stepProc]
+    rw [hpc] at hr hw
+    unfold armWaitReady
+    split
+    · refine pass_req s t i d .healthy (.waitReady d rest) rest deps ht ?_ rfl rfl rfl hr
+      simp only [WaitOK] at hw
+      simp [latchB, hw]
+    · exact other _ (doSkip_other s t i ht)
+  | waitLogReady d rest =>
+    simp only [stepProc]
+    rw [hpc] at hr hw
+    unfold armWaitLogReady
+    split
+    · refine pass_req s t i d .logReady (.waitLogReady d rest) rest deps ht ?_ rfl rfl rfl hr
+      simp only [WaitOK] at hw
+      simp [latchB, hw]
+    · exact other _ (doSkip_other s t i ht)
+  | waitStarted d rest =>
+    simp only [stepProc]
+    rw [hpc] at hr hw
+    refine pass_req s t i d .started (.waitStarted d rest) rest deps ht ?_ rfl rfl rfl hr
+    simp only [WaitOK] at hw
+    simp only [latchB, Bool.or_eq_true]
+    exact hw
+  | procSkipped => simp only [stepProc]; exact other _ (armProcSkipped_other s t i ht)
+  | runEnter =>
+    simp only [stepProc]
+    rw [hpc] at hle
+    exact launch (by rw [hpc]; rfl) _ (by simpa [stepProc] using hle) (armRunEnter_flow s t i ht)
+  | runChecked =>
+    simp only [stepProc]
+    rw [hpc] at hle
+    exact launch (by rw [hpc]; rfl) _ (by simpa [stepProc] using hle) (armRunChecked_flow s t i ht)
+  | cmdWait =>
+    simp only [stepProc]
+    rw [hpc] at hle
+    exact launch (by rw [hpc]; rfl) _ (by simpa [stepProc] using hle) (armCmdWait_flow s t i ht hpc)
+  | runExited =>
+    simp only [stepProc]
+    rw [hpc] at hle
+    exact launch (by rw [hpc]; rfl) _ (by simpa [stepProc] using hle) (armRunExited_flow s t i ht)
+  | backoff =>
+    simp only [stepProc]
+    rw [hpc] at hle
+    exact launch (by rw [hpc]; rfl) _ (by simpa [stepProc] using hle) (armBackoff_flow s t i ht)
+  | backoffElapsed =>
+    simp only [stepProc]
+    rw [hpc] at hle
+    exact launch (by rw [hpc]; rfl) _ (by simpa [stepProc] using hle) (doLaunch_flow s t i ht)
+  | procRan c => simp only [stepProc]; exact other _ (armProcRan_other s t i c ht)
+  | procDoneAdded c => simp only [stepProc]; exact other _ (armProcDoneAdded_other s t i c ht)
+  | lockCleanup => simp only [stepProc]; exact other _ (armLockCleanup_other s t i ht)
+  | _ =>
+    -- labels a process thread never stands at: `stepProc` leaves the state as it is
+    simp only [stepProc]
+    exact hr
+
+/-! ### the invariant is kept by every step -/
+
+theorem passed_le {t : Tid} {s s' : Sys} (hle : SysLe t s s')
+    (h : ∀ i d c, GateEv.passed i d c ∈ s.gate → latchB s c d = true) :
+    ∀ i d c, GateEv.passed i d c ∈ s'.gate → latchB s' c d = true := by
+  intro i d c he
+  rcases hle.gateNew i d c he with e | e
+  · have hl := h i d c e
+    exact latchB_le (hle.old d (latchB_lt hl)) hl
+  · exact e
+
+theorem thr_default (s : Sys) (t : Tid) (h : s.threads.length ≤ t) : s.thr t = { kind := .waiter 0, pc := .finished } := by
+  unfold Sys.thr
+  simp [List.getD_eq_getElem?_getD, List.getElem?_eq_none h]
+
+theorem lt_of_enabled (s : Sys) (t : Tid) (h : enabledThr s t = true) : t < s.threads.length := by
+  apply Classical.byContradiction
+  intro hn
+  have hd := thr_default s t (Nat.le_of_not_lt hn)
+  unfold enabledThr at h
+  simp [hd] at h
+
+/-- the frame: threads other than `t`, old or new -/
+theorem others_kept {t : Tid} {s s' : Sys} (hle : SysLe t s s') (g : GateInv s) (ht : t < s.threads.length)
+    (u : Tid) (hu : u < s'.threads.length) (hut : u ≠ t) (i : IId) (hk : (s'.thr u).kind = .proc i) :
+    i < s'.insts.length ∧ Req s' (s'.icfg i).deps i (s'.thr u).pc := by
+  by_cases hold : u < s.threads.length
+  · have e := hle.tframe u hold hut
+    rw [e] at hk ⊢
+    obtain ⟨hi, hr⟩ := g.thr u hold i hk
+    exact ⟨Nat.lt_of_lt_of_le hi hle.len, by rw [icfg_mono hle hi]; exact req_mono hle hr⟩
+  · rcases hle.tnew u (Nat.le_of_not_lt hold) hu with ⟨e1, e2⟩ | e
+    · refine ⟨e2 i hk, ?_⟩
+      rw [e1]
+      exact req_other _ _ _ _ rfl
+    · exact absurd e hut
+
+theorem stepThread_inv (s : Sys) (t : Tid) (h : Hints) (g : GateInv s) (ht : t < s.threads.length)
+    (hw : WaitOK s (s.thr t).pc) : GateInv (stepThread s t h) := by
+  have hle := stepThread_le s t h
+  refine ⟨passed_le hle g.passed, ?_⟩
+  intro u hu i hk
+  by_cases hut : u = t
+  · subst hut
+    have hkind : ((stepThread s u h).thr u).kind = (s.thr u).kind := by
+      rcases hle.tkind with e | e
+      · exact e
+      · exact absurd ht (Nat.not_lt.mpr e)
+    rw [hkind] at hk
+    obtain ⟨hi, hr⟩ := g.thr u ht i hk
+    refine ⟨Nat.lt_of_lt_of_le hi hle.len, ?_⟩
+    rw [icfg_mono hle hi]
+    by_cases hss : (s.thr u).pc.isStopSd = true
+    · exact req_other _ _ _ _ (stepThread_stopSd_other s u h ht hss)
+    · have hss' : (s.thr u).pc.isStopSd = false := by simpa using hss
+      have e := stepThread_proc s u h i hk hss'
+      rw [e]
+      exact stepProc_req s u i h _ ht rfl hr hw (by rw [← e]; exact hle)
+  · exact others_kept hle g ht u hu hut i hk
+
+theorem runThread_inv (s : Sys) (t : Tid) (h : Hints) (fuel : Nat) (g : GateInv s) (ht : t < s.threads.length)
+    (hw : WaitOK s (s.thr t).pc) : GateInv (runThread s t h fuel) := by
+  induction fuel generalizing s with
+  | zero => exact g
+  | succ fuel ih =>
+    unfold runThread
+    simp only
+    have g1 := stepThread_inv s t h g ht hw
+    split
+    · exact g1
+    · split
+      · exact g1
+      · rename_i _ hp
+        exact ih _ g1 (Nat.lt_of_lt_of_le ht (stepThread_le s t h).tlen)
+          (waitOK_of_not_parked _ t (by simpa using hp))
+
+theorem gateInv_congr {s s' : Sys} (g : GateInv s) (hg : s'.gate = s.gate) (hi : s'.insts = s.insts)
+    (ht : s'.threads = s.threads) (hc : s'.cfgs = s.cfgs) : GateInv s' := by
+  have einst : ∀ d, s'.inst d = s.inst d := fun d => by unfold Sys.inst; rw [hi]
+  have ethr : ∀ u, s'.thr u = s.thr u := fun u => by unfold Sys.thr; rw [ht]
+  have elatch : ∀ c d, latchB s' c d = latchB s c d := fun c d => by unfold latchB; rw [einst]
+  have eicfg : ∀ i, s'.icfg i = s.icfg i := fun i => by unfold Sys.icfg Sys.cfg Sys.nameOf; rw [hc, einst]
+  have ecov : ∀ i dep, Covered s i dep → Covered s' i dep := fun i dep h => by
+    unfold Covered at h ⊢; rw [hg]; exact h
+  refine ⟨fun i d c he => by rw [elatch]; exact g.passed i d c (by rw [← hg]; exact he), ?_⟩
+  intro u hu i hk
+  rw [ethr] at hk ⊢
+  obtain ⟨h1, h2⟩ := g.thr u (by rw [← ht]; exact hu) i hk
+  refine ⟨by rw [hi]; exact h1, ?_⟩
+  rw [eicfg]
+  refine ⟨fun hl dep hd => ecov i dep (h2.1 hl dep hd), fun hp dep hd => ?_⟩
+  rcases h2.2 hp dep hd with e | e | ⟨d, e1, e2⟩
+  · exact Or.inl e
+  · exact Or.inr (Or.inl (ecov i dep e))
+  · exact Or.inr (Or.inr ⟨d, e1, by rw [hg]; exact e2⟩)
+
+/-- an external event leaves the thread table as it is or appends one non-process thread -/
+theorem ext_threads (s : Sys) (c : Choice) (h : Hints) (hc : ∀ t, c ≠ .run t) :
+    (step s c h).threads = s.threads ∨
+    ∃ k, (step s c h).threads = s.threads ++ [{ kind := k }] ∧ ∀ i, k ≠ .proc i := by
+  unfold step
+  simp only
+  cases c with
+  | run t => exact absurd rfl (hc t)
+  | exit n code =>
+    left; simp only; split <;> rfl
+  | line n ready =>
+    left; simp only; split
+    · split <;> rfl
+    · rfl
+  | probe n ok =>
+    left; simp only; split
+    · split
+      · rfl
+      · split <;> rfl
+    · rfl
+  | probeFatal id n =>
+    simp only; split
+    · right; exact ⟨.probe id n, rfl, fun i hk => by cases hk⟩
+    · left; rfl
+  | killTimeout n =>
+    left; simp only; split <;> rfl
+  | call id op =>
+    right; exact ⟨.api id op, rfl, fun i hk => by cases hk⟩
+
+/-- an external event creates no process thread -/
+theorem ext_new_not_proc (s : Sys) (c : Choice) (h : Hints) (hc : ∀ t, c ≠ .run t)
+    (u : Tid) (h1 : s.threads.length ≤ u) (h2 : u < (step s c h).threads.length) (i : IId) :
+    ((step s c h).thr u).kind ≠ .proc i := by
+  rcases ext_threads s c h hc with e | ⟨k, e, hk⟩
+  · rw [e] at h2; exact absurd h2 (Nat.not_lt.mpr h1)
+  · have hu : u = s.threads.length := by
+      rw [e] at h2
+      simp only [List.length_append, List.length_singleton] at h2
+      exact Nat.le_antisymm (Nat.le_of_lt_succ h2) h1
+    subst hu
+    unfold Sys.thr
+    rw [e]
+    simp only [List.getD_eq_getElem?_getD, List.getElem?_append_right (Nat.le_refl _), Nat.sub_self,
+      List.getElem?_cons_zero, Option.getD_some]
+    exact hk i
+
+/-- an external event: instances move forward; the only thread it may add is not a process thread -/
+theorem ext_inv (s : Sys) (c : Choice) (h : Hints) (g : GateInv s) (hc : ∀ t, c ≠ .run t) : GateInv (step s c h) := by
+  have hle := step_le s c h
+  have htid : Choice.tid s c = s.threads.length := by
+    cases c with
+    | run t => exact absurd rfl (hc t)
+    | _ => rfl
+  refine ⟨passed_le hle g.passed, ?_⟩
+  intro u hu i hk
+  by_cases hold : u < s.threads.length
+  · have hut : u ≠ Choice.tid s c := by rw [htid]; exact Nat.ne_of_lt hold
+    have e := hle.tframe u hold hut
+    rw [e] at hk ⊢
+    obtain ⟨hi, hr⟩ := g.thr u hold i hk
+    exact ⟨Nat.lt_of_lt_of_le hi hle.len, by rw [icfg_mono hle hi]; exact req_mono hle hr⟩
+  · exact absurd hk (ext_new_not_proc s c h hc u (Nat.le_of_not_lt hold) hu i)
+
+theorem step_inv (s : Sys) (c : Choice) (h : Hints) (g : GateInv s) : GateInv (step s c h) := by
+  cases c with
+  | run t =>
+    unfold step
+    simp only
+    have g0 : GateInv ({ s with obs := [] } : Sys) := gateInv_congr g rfl rfl rfl rfl
+    split
+    · rename_i hen
+      exact runThread_inv _ t h _ g0 (lt_of_enabled _ t hen) (waitOK_of_enabled _ t hen)
+    · exact g0
+  | exit n code => exact ext_inv s _ h g (by intro t ht; cases ht)
+  | line n ready => exact ext_inv s _ h g (by intro t ht; cases ht)
+  | probe n ok => exact ext_inv s _ h g (by intro t ht; cases ht)
+  | probeFatal id n => exact ext_inv s _ h g (by intro t ht; cases ht)
+  | killTimeout n => exact ext_inv s _ h g (by intro t ht; cases ht)
+  | call id op => exact ext_inv s _ h g (by intro t ht; cases ht)
+
+theorem init_inv (gr : Gran) (o : Bool) (cfgs : List Cfg) : GateInv (init gr o cfgs) :=
+  ⟨fun i d c h => by simp [init] at h, fun u hu => by simp [init] at hu⟩
+
+/-- **The gate invariant holds in every reachable state.** -/
+theorem reach_gateInv (gr : Gran) (o : Bool) (cfgs : List Cfg) {s : Sys} (h : Reach (init gr o cfgs) s) : GateInv s := by
+  induction h with
+  | init => exact init_inv gr o cfgs
+  | step c hh _ ih => exact step_inv _ c hh ih
 
 end PC.Sup
